@@ -15,9 +15,13 @@
 (*   NoReset         a success does not clear the counter       (must be refuted) *)
 (*   SwallowApp      application exceptions are handled too     (must be refuted) *)
 (*   ResetOnRecover  counter cleared when the cool-down ends    (benign: must refine P) *)
+(*   StaleGuard      _ensure_enter_fail_safe returns early when the (lazily      *)
+(*                   maintained) flag is already False: a failure reported after *)
+(*                   the period, before anybody asked, does not open the breaker *)
+(*                                                              (must be refuted) *)
 EXTENDS FailSafeRel
 
-CONSTANTS Ns, Cs, MaxNow, Steps, StrictCool, NoReset, SwallowApp, ResetOnRecover
+CONSTANTS Ns, Cs, MaxNow, Steps, StrictCool, NoReset, SwallowApp, ResetOnRecover, StaleGuard
 
 VARIABLES cfgN, cfgC,      \* _max_errors_allowed, _cooldown_time
           okflag,          \* _state_ok
@@ -44,7 +48,7 @@ Exit(oc, out) ==
     CASE out \in {"ok", "skip", "bypass"} ->                         \* exc_type is None
             <<oc[1], IF NoReset THEN oc[2] ELSE 0, started, "none">>
       [] out = "gwerr" \/ (out = "appexc" /\ SwallowApp) ->          \* issubclass(exc_type, handle_on): _on_error
-            IF cfgN > oc[2] + 1
+            IF cfgN > oc[2] + 1 \/ (StaleGuard /\ ~oc[1])
             THEN <<oc[1], oc[2] + 1, started, "none">>
             ELSE <<FALSE, oc[2] + 1, now, "none">>                   \* _ensure_enter_fail_safe
       [] out = "appexc" /\ ~SwallowApp -> <<oc[1], oc[2], started, "same">>         \* return False: re-raised by the interpreter
